@@ -1,7 +1,7 @@
 (* Proofs about Model/Sleep.v (property C19), part 4: the property theorems, from the inductive
    invariant [inv] (Proofs/SleepBaseP.v, SleepInvP.v, SleepInv2P.v). *)
 From Coq Require Import ZArith Bool List Arith Lia.
-From NP Require Import Model.Sleep Model.SleepSpec Proofs.SleepBaseP Proofs.SleepInvP Proofs.SleepInv2P.
+From NP Require Import Model.Sleep Model.SleepSpec Proofs.SleepBaseP Proofs.SleepInvP Proofs.SleepInv2P Proofs.SleepStepP.
 Import ListNotations.
 
 (* states reachable from zero-valued Sleeper / Wakers under ANY client programs (any number of
@@ -67,3 +67,406 @@ Proof.
     + eapply (countp_zero (heldb w)); eauto.
     + rewrite pc_of_out in E by lia. discriminate.
 Qed.
+
+(* ------------------------------------------------------------------ fetch_sound *)
+Lemma fetch_sound_lemma : forall ps sched st evs,
+  run (init ps) sched = Some (st, evs) -> fetch_monitor evs = true.
+Proof.
+  intros ps sched st evs H. unfold fetch_monitor.
+  destruct (ghost_run sched (init ps) st evs mon0 (inv_init ps) (ghost_init ps) H) as [Hok _]. exact Hok.
+Qed.
+
+(* ------------------------------------------------------------------ no_lost_wakeup *)
+Definition attached (st : state) (w : nat) : Prop := In w (allw st).
+Definition enqueuing (st : state) (t w : nat) : Prop := pusherb w (pc_of st t) = true.
+Definition signalling (st : state) (t : nat) : Prop := gwaitb (pc_of st t) = true.
+Definition parked_in_fetch (st : state) : Prop := exists b, pc_of st 0 = PNwParked (CFetch b).
+
+Lemma parked_wg : forall st c, inv st -> pc_of st 0 = PNwParked c -> wg st = GPark.
+Proof.
+  intros st c Hinv Hp. pose proof (i_wg _ _ Hinv) as H. rewrite Hp in H.
+  destruct (wg st); simpl in H; congruence.
+Qed.
+
+Lemma no_lost_wakeup_lemma : forall st, reachable st -> parked_in_fetch st ->
+  wg st = GPark /\ local st = [] /\
+  forall w, attached st w -> ws st w = WAst ->
+    (exists t, t <> 0 /\ enqueuing st t w) \/
+    (In w (shared st) /\ exists t, t <> 0 /\ signalling st t).
+Proof.
+  intros st Hr [b Hp]. pose proof (reachable_inv st Hr) as Hinv.
+  assert (Hloc : local st = []) by (apply (i_loc _ _ Hinv eq_refl); rewrite Hp; reflexivity).
+  split; [eapply parked_wg; eauto|]. split; [assumption|].
+  intros w Hatt Hast.
+  pose proof (i_tok _ _ Hinv w) as Hw. unfold tok_ok, tok, attb in Hw.
+  assert (Hm : mem w (allw st) = true) by (apply cnt_mem; apply cnt_In; exact Hatt).
+  rewrite Hm, Hp in Hw. simpl in Hw. rewrite Hloc in Hw. simpl in Hw.
+  rewrite (held_only_0 st w Hinv) in Hw by (rewrite Hp; reflexivity).
+  destruct Hw as [[Hw _]|[_ Hw]]; [congruence|].
+  destruct (countp (pusherb w) (pcs st)) eqn:Ep.
+  - right. assert (Hin : In w (shared st)) by (apply cnt_In; lia). split; [assumption|].
+    assert (Hne : shared st <> []) by (intros E; rewrite E in Hin; destruct Hin).
+    assert (Hg : wg st <> G0) by (rewrite (parked_wg st _ Hinv Hp); discriminate).
+    pose proof (i_win _ _ Hinv _ (or_intror Hp) Hg Hne) as Hgw.
+    destruct (countp_exists _ _ Hgw) as [t [Ht Hs]]. exists t. split; [|exact Hs].
+    intros ->. unfold pc_of in Hp. rewrite Hp in Hs. discriminate.
+  - left. destruct (countp_exists (pusherb w) (pcs st)) as [t [Ht Hs]]; [lia|]. exists t. split; [|exact Hs].
+    intros ->. unfold pc_of in Hp. rewrite Hp in Hs. discriminate.
+Qed.
+
+(* no thread other than the sleeper's is inside a call *)
+Definition quiet (st : state) : Prop := forall t, t <> 0 -> pc_of st t = PIdle.
+
+Lemma not_stuck_lemma : forall st, reachable st -> parked_in_fetch st -> quiet st ->
+  forall w, attached st w -> ws st w <> WAst.
+Proof.
+  intros st Hr Hp Hq w Hatt Hast.
+  destruct (no_lost_wakeup_lemma st Hr Hp) as [_ [_ H]].
+  destruct (H w Hatt Hast) as [[t [Ht He]]|[_ [t [Ht Hs]]]].
+  - unfold enqueuing in He. rewrite (Hq t Ht) in He. discriminate.
+  - unfold signalling in Hs. rewrite (Hq t Ht) in Hs. discriminate.
+Qed.
+
+(* ------------------------------------------------------------------ nonblocking_fetch_complete *)
+Lemma nonblocking_fetch_lemma : forall st st' evs t', reachable st ->
+  step_ev st 0 = Some (st', evs) -> In (ERetFetchNone t') evs ->
+  shared st = [] /\ local st = [] /\
+  forall w, attached st w -> ws st w = WAst -> exists t, enqueuing st t w.
+Proof.
+  intros st st' evs t' Hr Hs Hin. pose proof (reachable_inv st Hr) as Hinv.
+  destruct (step_shape st 0 st' evs Hinv Hs) as [H1 _]. destruct (H1 t' Hin) as [Hp Hsh].
+  assert (Hloc : local st = []) by (apply (i_loc _ _ Hinv eq_refl); rewrite Hp; reflexivity).
+  split; [assumption|]. split; [assumption|]. intros w Hatt Hast.
+  pose proof (i_tok _ _ Hinv w) as Hw. unfold tok_ok, tok, attb in Hw.
+  assert (Hm : mem w (allw st) = true) by (apply cnt_mem; apply cnt_In; exact Hatt).
+  rewrite Hm, Hp in Hw. simpl in Hw. rewrite Hloc, Hsh in Hw. simpl in Hw.
+  rewrite (held_only_0 st w Hinv) in Hw by (rewrite Hp; reflexivity).
+  destruct Hw as [[Hw _]|[_ Hw]]; [congruence|].
+  destruct (countp_exists (pusherb w) (pcs st)) as [t [Ht Hh]]; [lia|]. exists t. exact Hh.
+Qed.
+
+(* ------------------------------------------------------------------ done_detaches *)
+(* the sleeper is back to its zero value, no waker refers to it, nobody is about to push on it *)
+Definition detached_all (st : state) : Prop :=
+  (forall w, ws st w <> WSlp) /\ shared st = [] /\ local st = [] /\ allw st = [] /\ wg st = G0 /\
+  pc_of st 0 = PIdle /\ (forall t w, pusherb w (pc_of st t) = false).
+
+Lemma cnt_zero_nil : forall l, (forall w, cnt w l = 0) -> l = [].
+Proof. destruct l; intros H; [reflexivity|]. specialize (H n). simpl in H. rewrite Nat.eqb_refl in H. simpl in H. lia. Qed.
+
+Lemma detached_of : forall st, inv st -> allw st = [] -> pc_of st 0 = PIdle -> detached_all st.
+Proof.
+  intros st Hinv Ha Hp.
+  assert (Hw : forall w, ws st w <> WSlp /\ tok st w = 0).
+  { intros w. pose proof (i_tok _ _ Hinv w) as Hw. unfold tok_ok, attb in Hw. rewrite Ha in Hw. simpl in Hw. exact Hw. }
+  unfold tok in Hw. repeat split.
+  - intros w. apply Hw.
+  - apply cnt_zero_nil. intros w. destruct (Hw w). lia.
+  - apply cnt_zero_nil. intros w. destruct (Hw w). lia.
+  - assumption.
+  - pose proof (i_wg _ _ Hinv) as H. rewrite Hp in H. destruct (wg st); simpl in H; congruence.
+  - assumption.
+  - intros t w. apply no_pusher. destruct (Hw w). lia.
+Qed.
+
+Lemma done_detaches_lemma : forall st st' evs t', reachable st ->
+  step_ev st 0 = Some (st', evs) -> In (ERetDone t') evs -> detached_all st'.
+Proof.
+  intros st st' evs t' Hr Hs Hin. pose proof (reachable_inv st Hr) as Hinv.
+  destruct (step_shape st 0 st' evs Hinv Hs) as [_ [H2 _]]. destruct (H2 t' Hin) as [Ha Hp].
+  apply detached_of; [eapply inv_step; eauto|assumption|assumption].
+Qed.
+
+(* ... and it stays so whatever the other threads do, as long as thread 0 does not use it *)
+Lemma detached_stays : forall sched st st' evs, reachable st -> detached_all st ->
+  (forall t, In t sched -> t <> 0) -> run st sched = Some (st', evs) -> detached_all st'.
+Proof.
+  intros sched st st' evs Hr Hd Hsched Hrun.
+  assert (Q : inv st /\ allw st = [] /\ pc_of st 0 = PIdle).
+  { split; [apply reachable_inv; assumption|]. destruct Hd as [_ [_ [_ [Ha [_ [Hp _]]]]]]. auto. }
+  clear Hr Hd. revert st st' evs Q Hsched Hrun.
+  induction sched as [|t r IH]; intros st st' evs [Hinv [Ha Hp]] Hsched Hrun; unfold run in *; simpl in Hrun.
+  - inversion Hrun; subst. apply detached_of; assumption.
+  - destruct (step_gen true st t) as [[s1 e1]|] eqn:Hs; [|discriminate].
+    destruct (run_gen true s1 r) as [[s2 e2]|] eqn:Hr; [|discriminate]. inversion Hrun; subst.
+    assert (Ht : t <> 0) by (apply Hsched; left; reflexivity).
+    destruct (step_shape st t s1 e1 Hinv Hs) as [_ [_ H3]]. destruct (H3 Ht) as [Ha1 Hp1].
+    eapply IH; [| |exact Hr].
+    + split; [eapply inv_step; eauto|]. split; [congruence|].
+      destruct Hp1 as [Hp1|Hp1]; [congruence|]. rewrite Hp in Hp1. discriminate.
+    + intros t0 Hin. apply Hsched. right. assumption.
+Qed.
+
+(* each waker can be attached again: AddWaker is enabled for every waker *)
+Lemma detached_can_add : forall st w id r, detached_all st -> 0 < length (pcs st) ->
+  prog_of st 0 = OAdd w id :: r ->
+  exists st' evs, step_ev st 0 = Some (st', evs) /\ pc_of st' 0 = PAwLoad w /\ attached st' w.
+Proof.
+  intros st w id r [_ [_ [_ [Ha [_ [Hp _]]]]]] Hlt Hprog.
+  unfold step_ev, step_gen. destruct (Nat.ltb_spec 0 (length (pcs st))); [|lia]. simpl.
+  rewrite Hp, Hprog, Ha. simpl. eexists. eexists. split; [reflexivity|]. split.
+  - rewrite pc_of_set_pc by (simpl; assumption). reflexivity.
+  - left. reflexivity.
+Qed.
+
+(* ------------------------------------------------------------------ witnesses *)
+(* the variant WITHOUT the second load of sharedList loses a wake-up: the waker is attached, its
+   Assert call has returned, nobody is in flight, and the sleeper is parked for ever *)
+Definition lost_wakeup (st : state) (evs : list event) : Prop :=
+  parked_in_fetch st /\ (forall t, t <> 0 -> pc_of st t = PIdle /\ prog_of st t = []) /\
+  exists t w, attached st w /\ ws st w = WAst /\ In (ERetAssert t w) evs.
+
+Lemma no_recheck_refuted_lemma :
+  exists ps sched st evs, run_gen false (init ps) sched = Some (st, evs) /\ lost_wakeup st evs.
+Proof.
+  exists [[OAdd 0 7%Z; OFetch true]; [OAssert 0]].
+  exists [0; 0; 0; 0; 0; 1; 1; 1; 1; 1; 1; 0; 0].
+  eexists. eexists. split; [vm_compute; reflexivity|].
+  split; [exists true; reflexivity|]. split.
+  - intros t Ht. destruct t as [|[|t]]; [congruence| |]; split; try reflexivity;
+    unfold pc_of, prog_of; simpl; destruct t; reflexivity.
+  - exists 1, 0. split; [left; reflexivity|]. split; [reflexivity|]. simpl. tauto.
+Qed.
+
+(* the same programs and schedule with the real code ([run]): the re-check sees the waker *)
+Lemma recheck_saves : exists st evs,
+  run (init [[OAdd 0 7%Z; OFetch true]; [OAssert 0]]) [0; 0; 0; 0; 0; 1; 1; 1; 1; 1; 1; 0; 0; 0; 0; 0] = Some (st, evs) /\
+  In (ERetFetch 0 0 7%Z) evs.
+Proof. eexists. eexists. split; [vm_compute; reflexivity|]. simpl. tauto. Qed.
+
+(* the classic window: the assert lands between the sleeper's re-check and its gopark; whichever
+   side moves first, the blocking Fetch returns the waker's id *)
+Lemma classic_window_handled :
+  exists pre st evs,
+    run (init [[OAdd 0 7%Z; OFetch true]; [OAssert 0]]) pre = Some (st, evs) /\
+    pc_of st 0 = PNwPark (CFetch true) /\ wg st = GPrep /\ shared st = [0] /\ ws st 0 = WAst /\
+    (exists st1 e1, run st [1; 1; 0; 0; 0; 0] = Some (st1, e1) /\
+       ~ In EPark e1 /\ In (ERetFetch 0 0 7%Z) e1) /\
+    (exists st2 e2, run st [0; 1; 1; 0; 0; 0] = Some (st2, e2) /\
+       In EPark e2 /\ In (EWake 1) e2 /\ In (ERetFetch 0 0 7%Z) e2).
+Proof.
+  exists [0; 0; 0; 0; 0; 0; 0; 1; 1; 1; 1; 1].
+  eexists. eexists. split; [vm_compute; reflexivity|].
+  split; [reflexivity|]. split; [reflexivity|]. split; [reflexivity|]. split; [reflexivity|]. split.
+  - eexists. eexists. split; [vm_compute; reflexivity|]. split; [|simpl; tauto].
+    simpl. intros H. repeat (destruct H as [H|H]; [discriminate H|]). exact H.
+  - eexists. eexists. split; [vm_compute; reflexivity|]. simpl. tauto.
+Qed.
+
+(* "completed" must mean "pushed": an Assert call that found the waker already asserted returns
+   at once, although the call that asserted it has not pushed yet; a Fetch(false) invoked after
+   that return still reports nothing *)
+Lemma nonblocking_fetch_api_refuted :
+  exists ps sched st pre,
+    run (init ps) sched = Some (st, pre ++ [ERetFetchNone 0]) /\
+    In (ERetAdd 0 0) pre /\ In (ERetAssert 2 0) pre /\
+    (forall t w id, ~ In (ERetFetch t w id) pre) /\ (forall t w b, ~ In (ERetClear t w b) pre) /\
+    attached st 0 /\ ws st 0 = WAst /\ enqueuing st 1 0.
+Proof.
+  exists [[OAdd 0 7%Z; OFetch false]; [OAssert 0]; [OAssert 0]].
+  exists [0; 0; 0; 1; 1; 1; 2; 2; 0; 0].
+  eexists.
+  exists [EInvoke 0 (OAdd 0 7%Z); ERetAdd 0 0; EInvoke 1 (OAssert 0); ESwitch 1 0 WSlp;
+          EInvoke 2 (OAssert 0); ERetAssert 2 0; EInvoke 0 (OFetch false)].
+  split; [vm_compute; reflexivity|].
+  split; [simpl; tauto|]. split; [simpl; tauto|].
+  split. { intros t w id H. simpl in H. repeat (destruct H as [H|H]; [discriminate H|]). exact H. }
+  split. { intros t w b H. simpl in H. repeat (destruct H as [H|H]; [discriminate H|]). exact H. }
+  split; [left; reflexivity|]. split; reflexivity.
+Qed.
+
+(* ------------------------------------------------------------------ the wake-up is only a few steps away *)
+(* thread t runs alone for n steps *)
+Fixpoint solo (st : state) (t n : nat) : option state :=
+  match n with
+  | O => Some st
+  | S k => match step st t with Some s => solo s t k | None => None end
+  end.
+
+Lemma in_range : forall st t, pc_of st t <> PIdle -> t < length (pcs st).
+Proof. intros st t H. destruct (Nat.lt_ge_cases t (length (pcs st))); [assumption|]. exfalso. apply H. apply pc_of_out. lia. Qed.
+
+Ltac eval_step Hlt Hpc :=
+  unfold step, step_ev, step_gen; rewrite (proj2 (Nat.ltb_lt _ _) Hlt); cbn [negb]; rewrite Hpc.
+
+Lemma head_eqb_refl : forall v, head_eqb v v = true.
+Proof. destruct v; simpl; [apply Nat.eqb_refl|reflexivity]. Qed.
+
+(* a thread past its push, with the sleeper parked: at most 3 of its own steps to the goready *)
+Lemma signal_wakes_lemma : forall st c t, reachable st ->
+  pc_of st 0 = PNwParked c -> signalling st t ->
+  exists n st', n <= 3 /\ solo st t n = Some st' /\ pc_of st' 0 = PNwLoad1 c /\ wg st' = G0 /\
+               shared st' = shared st.
+Proof.
+  intros st c t Hr Hp Hs. pose proof (reachable_inv st Hr) as Hinv.
+  pose proof (parked_wg st c Hinv Hp) as Hg.
+  assert (Ht0 : t <> 0) by (intros ->; unfold signalling in Hs; rewrite Hp in Hs; discriminate).
+  assert (Hlt : t < length (pcs st)) by (apply in_range; intros E; unfold signalling in Hs; rewrite E in Hs; discriminate).
+  assert (H0 : 0 < length (pcs st)) by lia.
+  (* the last step: CAS(waitingG, g, 0) succeeds and readies the sleeper *)
+  assert (Last : forall s k w, pc_of s t = PEnqCasG k w GPark -> wg s = GPark -> pc_of s 0 = PNwParked c ->
+                   t < length (pcs s) -> 0 < length (pcs s) ->
+                   exists s', step s t = Some s' /\ pc_of s' 0 = PNwLoad1 c /\ wg s' = G0 /\ shared s' = shared s).
+  { intros s k w Hpc Hgs Hps Hl Hl0. eexists. split.
+    - eval_step Hl Hpc. rewrite Hgs. simpl.
+      rewrite pc_of_set_pc by (simpl; exact Hl). destruct (Nat.eqb_spec 0 t); [congruence|].
+      change (pc_of (set_wg s G0) 0) with (pc_of s 0). rewrite Hps. reflexivity.
+    - split; [|split; reflexivity]. rewrite pc_of_set_pc; [reflexivity|].
+      unfold set_pc, set_wg; simpl; rewrite length_lset; exact Hl0. }
+  (* the load of waitingG sees the parked G *)
+  assert (Load : forall s k w, pc_of s t = PEnqLoadG k w -> wg s = GPark -> t < length (pcs s) ->
+                   step s t = Some (set_pc s t (PEnqCasG k w GPark))).
+  { intros s k w Hpc Hgs Hl. eval_step Hl Hpc. rewrite Hgs. reflexivity. }
+  assert (Next : forall s k w, pc_of s t = PEnqLoadG k w -> wg s = GPark -> pc_of s 0 = PNwParked c ->
+                   t < length (pcs s) -> 0 < length (pcs s) ->
+                   exists s', solo s t 2 = Some s' /\ pc_of s' 0 = PNwLoad1 c /\ wg s' = G0 /\ shared s' = shared s).
+  { intros s k w Hpc Hgs Hps Hl Hl0. simpl. rewrite (Load s k w Hpc Hgs Hl).
+    destruct (Last (set_pc s t (PEnqCasG k w GPark)) k w) as [s' [Hs' Hrest]].
+    - rewrite pc_of_set_pc by exact Hl. rewrite Nat.eqb_refl. reflexivity.
+    - exact Hgs.
+    - rewrite pc_of_set_pc by exact Hl. destruct (Nat.eqb_spec 0 t); [congruence|exact Hps].
+    - unfold set_pc; simpl; rewrite length_lset; exact Hl.
+    - unfold set_pc; simpl; rewrite length_lset; exact Hl0.
+    - exists s'. rewrite Hs'. auto. }
+  unfold signalling in Hs. destruct (pc_of st t) eqn:Hpc; try discriminate Hs.
+  - destruct (Next st fromAdd w Hpc Hg Hp Hlt H0) as [s' [Hs' Hrest]]. exists 2, s'. auto.
+  - destruct g.
+    + exfalso. eapply (i_casg _ _ Hinv); eauto.
+    + (* a stale preparingG: the CAS fails, back to the load *)
+      assert (Hstep : step st t = Some (set_pc st t (PEnqLoadG fromAdd w))).
+      { eval_step Hlt Hpc. rewrite Hg. reflexivity. }
+      destruct (Next (set_pc st t (PEnqLoadG fromAdd w)) fromAdd w) as [s' [Hs' Hrest]].
+      * rewrite pc_of_set_pc by exact Hlt. rewrite Nat.eqb_refl. reflexivity.
+      * exact Hg.
+      * rewrite pc_of_set_pc by exact Hlt. destruct (Nat.eqb_spec 0 t); [congruence|exact Hp].
+      * unfold set_pc; simpl; rewrite length_lset; exact Hlt.
+      * unfold set_pc; simpl; rewrite length_lset; exact H0.
+      * exists 3, s'. split; [lia|]. split; [|exact Hrest].
+        change (solo st t 3) with (match step st t with Some s => solo s t 2 | None => None end).
+        rewrite Hstep. exact Hs'.
+    + destruct (Last st fromAdd w Hpc Hg Hp Hlt H0) as [s' [Hs' Hrest]]. exists 1, s'.
+      split; [lia|]. split; [|exact Hrest]. simpl. rewrite Hs'. reflexivity.
+Qed.
+
+Lemma solo_add : forall a b st t s1, solo st t a = Some s1 -> solo st t (a + b) = solo s1 t b.
+Proof.
+  induction a; simpl; intros b st t s1 H; [inversion H; reflexivity|].
+  destruct (step st t) as [s|]; [|discriminate]. apply IHa. assumption.
+Qed.
+
+Lemma step_reach : forall st t s, reachable st -> step st t = Some s -> reachable s.
+Proof.
+  intros st t s Hr H. unfold step in H. destruct (step_ev st t) as [[s' e]|] eqn:E; [|discriminate].
+  inversion H; subst. eapply reachable_step; eauto.
+Qed.
+
+(* a thread before its push, with the sleeper parked, running alone: at most 3 steps to the push *)
+Lemma enqueue_pushes : forall st c t w, reachable st ->
+  pc_of st 0 = PNwParked c -> enqueuing st t w ->
+  exists n s, n <= 3 /\ solo st t n = Some s /\ reachable s /\ pc_of s 0 = PNwParked c /\
+              signalling s t /\ In w (shared s).
+Proof.
+  intros st c t w Hr Hp He.
+  assert (Ht0 : t <> 0) by (intros ->; unfold enqueuing in He; rewrite Hp in He; discriminate).
+  (* from the CAS with an up-to-date head *)
+  assert (Push : forall s k, reachable s -> pc_of s 0 = PNwParked c ->
+            pc_of s t = PEnqCas k w (hd_error (shared s)) ->
+            exists s', step s t = Some s' /\ reachable s' /\ pc_of s' 0 = PNwParked c /\
+                       signalling s' t /\ In w (shared s')).
+  { intros s k Hrs Hps Hpc.
+    assert (Hl : t < length (pcs s)) by (apply in_range; rewrite Hpc; discriminate).
+    assert (Hst : step s t = Some (set_pc (set_shared s (w :: shared s)) t (PEnqLoadG k w))).
+    { eval_step Hl Hpc. rewrite head_eqb_refl. reflexivity. }
+    eexists. split; [exact Hst|]. split; [eapply step_reach; eauto|]. split; [|split].
+    - rewrite pc_of_set_pc by (simpl; exact Hl). destruct (Nat.eqb_spec 0 t); [congruence|exact Hps].
+    - unfold signalling. rewrite pc_of_set_pc by (simpl; exact Hl). rewrite Nat.eqb_refl. reflexivity.
+    - left. reflexivity. }
+  (* from the load *)
+  assert (Load : forall s k, reachable s -> pc_of s 0 = PNwParked c -> pc_of s t = PEnqLoad k w ->
+            exists s', solo s t 2 = Some s' /\ reachable s' /\ pc_of s' 0 = PNwParked c /\
+                       signalling s' t /\ In w (shared s')).
+  { intros s k Hrs Hps Hpc.
+    assert (Hl : t < length (pcs s)) by (apply in_range; rewrite Hpc; discriminate).
+    assert (Hst : step s t = Some (set_pc s t (PEnqCas k w (hd_error (shared s))))).
+    { eval_step Hl Hpc. reflexivity. }
+    destruct (Push (set_pc s t (PEnqCas k w (hd_error (shared s)))) k) as [s' [Hs' Hrest]].
+    - eapply step_reach; eauto.
+    - rewrite pc_of_set_pc by exact Hl. destruct (Nat.eqb_spec 0 t); [congruence|exact Hps].
+    - rewrite pc_of_set_pc by exact Hl. rewrite Nat.eqb_refl. reflexivity.
+    - exists s'. split; [|exact Hrest]. simpl. rewrite Hst. rewrite Hs'. reflexivity. }
+  unfold enqueuing in He. destruct (pc_of st t) eqn:Hpc; try discriminate He; simpl in He; apply Nat.eqb_eq in He; subst w0.
+  - destruct (Load st fromAdd Hr Hp Hpc) as [s' [Hs' Hrest]]. exists 2, s'. split; [lia|]. split; assumption.
+  - assert (Hl : t < length (pcs st)) by (apply in_range; rewrite Hpc; discriminate).
+    destruct (head_eqb (hd_error (shared st)) v) eqn:Hh.
+    + assert (v = hd_error (shared st)).
+      { destruct v, (hd_error (shared st)); simpl in Hh; try discriminate; [apply Nat.eqb_eq in Hh; subst|]; reflexivity. }
+      subst v. destruct (Push st fromAdd Hr Hp Hpc) as [s' [Hs' Hrest]].
+      exists 1, s'. split; [lia|]. split; [|exact Hrest]. simpl. rewrite Hs'. reflexivity.
+    + assert (Hst : step st t = Some (set_pc st t (PEnqLoad fromAdd w))).
+      { eval_step Hl Hpc. rewrite Hh. reflexivity. }
+      destruct (Load (set_pc st t (PEnqLoad fromAdd w)) fromAdd) as [s' [Hs' Hrest]].
+      * eapply step_reach; eauto.
+      * rewrite pc_of_set_pc by exact Hl. destruct (Nat.eqb_spec 0 t); [congruence|exact Hp].
+      * rewrite pc_of_set_pc by exact Hl. rewrite Nat.eqb_refl. reflexivity.
+      * exists 3, s'. split; [lia|]. split; [|exact Hrest].
+        change (solo st t 3) with (match step st t with Some s => solo s t 2 | None => None end).
+        rewrite Hst. exact Hs'.
+Qed.
+
+Lemma enqueue_wakes_lemma : forall st c t w, reachable st ->
+  pc_of st 0 = PNwParked c -> enqueuing st t w ->
+  exists n st', n <= 6 /\ solo st t n = Some st' /\ pc_of st' 0 = PNwLoad1 c /\ wg st' = G0 /\ In w (shared st').
+Proof.
+  intros st c t w Hr Hp He.
+  destruct (enqueue_pushes st c t w Hr Hp He) as [n1 [s1 [Hn1 [Hs1 [Hr1 [Hp1 [Hsig Hin]]]]]]].
+  destruct (signal_wakes_lemma s1 c t Hr1 Hp1 Hsig) as [n2 [s2 [Hn2 [Hs2 [Hp2 [Hg2 Hsh2]]]]]].
+  exists (n1 + n2), s2. split; [lia|]. split; [rewrite (solo_add n1 n2 st t s1 Hs1); exact Hs2|].
+  split; [assumption|]. split; [assumption|]. rewrite Hsh2. assumption.
+Qed.
+
+(* no lost wake-up, with the distance: whenever the sleeper is parked in a blocking Fetch and an
+   attached waker is asserted, some OTHER thread is in flight such that at most 6 of its own steps
+   make the sleeper runnable again with a non-empty sharedList that contains the waker *)
+Lemma wakeup_is_near_lemma : forall st b w, reachable st ->
+  pc_of st 0 = PNwParked (CFetch b) -> attached st w -> ws st w = WAst ->
+  exists t n st', t <> 0 /\ n <= 6 /\ solo st t n = Some st' /\
+     pc_of st' 0 = PNwLoad1 (CFetch b) /\ wg st' = G0 /\ In w (shared st').
+Proof.
+  intros st b w Hr Hp Hatt Hast.
+  destruct (no_lost_wakeup_lemma st Hr (ex_intro _ b Hp)) as [_ [_ H]].
+  destruct (H w Hatt Hast) as [[t [Ht He]]|[Hin [t [Ht Hs]]]].
+  - destruct (enqueue_wakes_lemma st _ t w Hr Hp He) as [n [st' [Hn [Hs' [Hp' [Hg' Hin']]]]]].
+    exists t, n, st'. auto 10.
+  - destruct (signal_wakes_lemma st _ t Hr Hp Hs) as [n [st' [Hn [Hs' [Hp' [Hg' Hsh]]]]]].
+    exists t, n, st'. repeat split; try assumption; [lia|]. rewrite Hsh. assumption.
+Qed.
+
+(* no goroutine dies of a nil dereference, and commitSleep never finds a parked G already stored *)
+Lemma no_panic_lemma : forall st, reachable st ->
+  (forall t, pc_of st t <> PPanic) /\ (forall c, pc_of st 0 = PNwPark c -> wg st <> GPark).
+Proof.
+  intros st Hr. pose proof (reachable_inv st Hr) as Hinv. split; [apply (i_nopanic _ _ Hinv)|].
+  intros c Hp Hg. pose proof (i_wg _ _ Hinv) as H. rewrite Hp, Hg in H. discriminate.
+Qed.
+
+(* non-vacuity of no_lost_wakeup / wakeup_is_near: a reachable state with the sleeper parked in a
+   blocking Fetch, an attached asserted waker in sharedList, and its enqueuer about to signal *)
+Lemma parked_with_asserted_reachable :
+  exists st, reachable st /\ parked_in_fetch st /\ attached st 0 /\ ws st 0 = WAst /\
+             In 0 (shared st) /\ signalling st 1.
+Proof.
+  eexists. split.
+  - exists [[OAdd 0 7%Z; OFetch true]; [OAssert 0]], [0; 0; 0; 0; 0; 0; 0; 1; 1; 1; 1; 1; 0]. eexists.
+    vm_compute. reflexivity.
+  - split; [exists true; reflexivity|]. split; [left; reflexivity|]. split; [reflexivity|].
+    split; [left; reflexivity|reflexivity].
+Qed.
+
+(* non-vacuity of done_detaches: Done races with an Assert, has to wait for it (parks), pulls the
+   waker, returns; the waker stays asserted and a second AddWaker + Fetch delivers it *)
+Lemma done_race_example :
+  exists st evs,
+    run (init [[OAdd 0 7%Z; ODone; OAdd 0 8%Z; OFetch true]; [OAssert 0]])
+        [0; 0; 0; 1; 1; 1; 0; 0; 0; 0; 0; 0; 1; 1; 1; 1; 0; 0; 0; 0; 0; 0; 0; 0; 0; 0; 0] = Some (st, evs) /\
+    In EPark evs /\ In (EPull 0) evs /\ In (ERetDone 0) evs /\ In (ERetFetch 0 0 8%Z) evs.
+Proof. eexists. eexists. split; [vm_compute; reflexivity|]. simpl. tauto. Qed.
